@@ -119,7 +119,7 @@ def _check_rescale(ck, rule, f, arg, src_name, dst_nfrac, raw, node, who):
         ck.bad(rule, f, "%s computes src.val * 2^(dst.n_frac - src.n_frac): a code of the destination's fraction length" % who,
                "re-scaled to 2^(%s), destination stores with 2^(%s)" % (t.t.show(), want.show()), node, {"witness": witness(t.t, want), "meaning": "the converted value is wrong by a power of two"})
         return
-    pre = [e for e in ev if e[0] in ("intcast", "round", "adjust", "recast")]
+    pre = [e for e in ev if e[0] in ("intcast", "round", "adjust", "recast", "truediv", "clamp")]
     if t.info.get("floordiv") or pre or any(isinstance(n, ast.BinOp) and isinstance(n.op, (ast.FloorDiv, ast.RShift)) for n in ast.walk(arg)):
         ck.bad(rule, f, "%s leaves the quantization to the destination (no floor/shift/cast while re-scaling)" % who, "pre-quantized: %s" % src(arg)[:80], node,
                "dropping bits with // or >> floors the value and ignores the destination's rounding mode; the routes then disagree")
